@@ -109,6 +109,7 @@ def main():
             {"name": "derive-check", "path": "lib/gen_derive.py, derive_check/", "serves_properties": ["C18"], "kind_free_text": "generated type definitions compiled against /repo/derive"},
             {"name": "ccmc-interleave+teardown+parallel", "path": "harness/src/threads.rs, lib/engines.py", "serves_properties": ["C19"], "kind_free_text": "all interleavings under a baton scheduler; teardown scenario matrix in subprocesses; parallel-vs-isolated differential"},
             {"name": "chain", "path": "harness/src/chain.rs", "serves_properties": ["C06"], "kind_free_text": "deep-chain family: finalizers that keep releasing / creating objects, 10-pass cap, termination"},
+            {"name": "mixed", "path": "harness/src/mixed.rs", "serves_properties": ["C03"], "kind_free_text": "two payload types of different alignment under one collector with automatic collections on: all histories to a depth over new A / new B / garbage / drop / collect for every ordered pair of six layout classes; oracle = instrumented allocator (layout of every release), drop counters, allocated_bytes"},
             {"name": "rcchain", "path": "harness/src/chain.rs (run_rc)", "serves_properties": ["C04"], "kind_free_text": "chains of solely-owned objects of every length up to a bound (plus powers of two and their neighbours) x link kind x buffering pattern x earlier collection: dropping the head releases everything before the drop returns"},
             {"name": "ccmc-policy", "path": "harness/src/policy.rs, harness/src/bfs.rs", "serves_properties": ["C15"], "kind_free_text": "explicit-state BFS over the real auto-collect policy with a reference policy oracle"},
             {"name": "ccmc-explorer", "path": "harness/src (explore.rs, world.rs, world_ops.rs, alloc.rs, lens.rs)", "serves_properties": sorted(k for k, v in CHECKS.items() if "ccmc-explorer" in v["engine"]), "kind_free_text": "explicit-state BFS over the real crate by history replay; fault forking; crash isolation"},
